@@ -50,6 +50,8 @@ def cfgs(tier):
         dict(base, qd='MIN-SR-FLEX', M=[2], NP=1, maxiter=2, restol=-1.0, blocks=2, nsweeps=2),
         # a user hook with an extended entry class
         dict(base, M=[2], NP=2, maxiter=2, restol=-1.0, blocks=2, exthook=True),
+        # an explicitly given initial step size below the step size (level parameters must come out of a run as they went in)
+        dict(base, M=[2], NP=2, maxiter=2, restol=-1.0, blocks=2, dt_initial=0.0625, jac=False),
         # a shipped convergence controller that carries state into the problem (solver tolerance set from the residual after every iteration, iteration 0 included)
         dict(base, M=[2], NP=1, maxiter=2, restol=-1.0, blocks=2, inexact=True, xrange=[0.5, 1.0]),
         dict(base, M=[2], NP=2, maxiter=2, restol=-1.0, blocks=2, inexact=True, jac=False, xrange=[0.5, 1.0]),
